@@ -234,6 +234,44 @@ def check_stale(ctx):
     ctx.expect(paths, abort=3)
 
 
+def check_two_sandboxes(ctx):
+    base = ctx.sandbox_base(2, "base")
+    base2 = ctx.sandbox_base(2, "base2")
+    ctx.assume(base != base2)
+    gobj = ctx.eng.gaddr.get("_ZL5g_obj")
+    paths = ctx.run("k_owner_two_sandboxes", [base, base2])
+    for q in paths:
+        lg = q.user.get("log") or []
+        if q.status == "ret":
+            ctx.fail(q, "the token of an owner overwritten by an owner of another sandbox (with an equal token value) is still resolvable")
+        elif q.status == "abort":
+            e8 = [e for e in lg if e[0] == 8]
+            ok = bool(e8) and e8[0][1] == 0 and e8[0][2] == 1
+            got = e8[0][3] if e8 else 0
+            ctx.require(q, z3.And(z3.BoolVal(ok), (got if not isinstance(got, int) else BV(got, 64)) == BV(gobj + 4, 64)),
+                        "move-assignment between owners of different sandboxes transfers the token and empties the source")
+    ctx.expect(paths, abort=1)
+
+
+def check_b32(ctx):
+    base = ctx.sandbox_base(32)
+    gobj = ctx.eng.gaddr.get("_ZL5g_obj")
+    paths = ctx.run("k_b32_tokens", [base])
+    for q in paths:
+        if q.status != "ret":
+            ctx.fail(q, "registration on an empty 32-bit token table failed: %s" % q.info)
+            continue
+        lg = q.user["log"]
+        e7 = [e for e in lg if e[0] == 7][0]
+        e8 = [e for e in lg if e[0] == 8][0]
+        v = lambda x: x if not isinstance(x, int) else BV(x, 64)
+        ctx.require(q, z3.And(v(e7[1]) != 0, v(e7[2]) != 0, v(e7[1]) != v(e7[2]), z3.ULE(v(e7[1]), BV(0xFFFFFFFF, 64)), z3.ULE(v(e7[2]), BV(0xFFFFFFFF, 64)),
+                              v(e7[3]) == BV(gobj + 4, 64), v(e8[1]) != 0, v(e8[1]) != v(e7[2]), v(e8[2]) == BV(gobj + 8, 64)),
+                    "tokens are non-zero, within the 32-bit range, distinct among live owners and resolve to their pointers")
+    ctx.only(paths, "ret")
+    ctx.expect(paths, ret=1)
+
+
 def jobs(tier, seed):
     L = 12 if tier == "quick" else 40
     flags = ["-isystem", "/verif/stubs/mapmodel", "-fno-exceptions"]
@@ -246,5 +284,7 @@ def jobs(tier, seed):
     for f in range(NOPS):
         out.append(Job("C15_owner_hist_%d" % f, osrc, [dict(name="owner histories depth %d first op %d" % (depth, f), fn=check_hist,
                                                             kw=dict(depth=depth, first=f), unwind=400)], max_paths=200000))
+    out.append(Job("C15_owner_two", osrc, [dict(name="owners of two sandboxes with equal tokens", fn=check_two_sandboxes, unwind=400)], native=False))
+    out.append(Job("C15_b32", '#include "C15_b32.inc"\n', [dict(name="32-bit token table on a 4 GiB sandbox", fn=check_b32, unwind=400)], native=False))
     out.append(Job("C15_owner_stale", osrc, [dict(name="stale token lookup", fn=check_stale, unwind=400)]))
     return out
